@@ -1,7 +1,8 @@
-SPECIFICATION Spec
+SPECIFICATION SchedSpec
 CONSTANTS Messages <- MCMessages
-          AsCoded = FALSE
-          Fixed = FALSE
+          AsCoded = TRUE
+          Fixed = TRUE
+          Gated = TRUE
           Mode = "http"
           MaxMsgs = 1
           HasTimeout = TRUE
@@ -12,11 +13,12 @@ CONSTANTS Messages <- MCMessages
           SzBig = 60
           SzErr = 40
           SzInv = 43
-          CallMethods = {"ret", "blk", "cblk", "big", "err"}
-          NotifMethods = {"ret", "blk", "cblk"}
-          InvIds = {0, 1}
-          WithResp = TRUE
+          CallMethods = {"ret", "blk", "cblk"}
+          NotifMethods = {"blk", "cblk"}
+          InvIds = {}
+          WithResp = FALSE
           MaxBatch = 2
           Ids = {1, 2}
-INVARIANT Invs
+INVARIANTS StateOut
+ACTION_CONSTRAINT Edge
 CHECK_DEADLOCK FALSE
